@@ -18,7 +18,7 @@ def depslib_trusted():
             "Model/DepsReplay.guess is untrusted: acceptance re-runs Model/Deps.run on the guessed schedule"]
 
 
-def contention(ctx):
+def contention(ctx, parts=("contend", "generic", "names", "invalid")):
     """C01 under contention: a lost update in the registry only shows when several goroutines miss
     the same fresh key at the same instant (oracle only; the theorem side is C01_at_most_once)."""
     binp = os.path.join(ctx.tmp, "bin_depsrun")
@@ -33,10 +33,19 @@ def contention(ctx):
     ctx.coverage["contention_goroutines_per_key"] = gor
     ctx.coverage["contention_not_once"] = len(r["not_once"])
     ctx.coverage["generic_instantiations_runs"] = r.get("generic_runs")
-    if r.get("generic_runs") and r["generic_runs"] != [1, 1]:
+    if "generic" in parts and r.get("generic_runs") and r["generic_runs"] != [1, 1]:
         # matched by the known finding F23 (kind + shape); any other shape of conflation stays a violation
         ctx.violation({"kind": "generic-instantiations-conflated", "runs": r["generic_runs"]},
                       case={"call": "mg.Deps(genericDep[int], genericDep[string])"})
-    if r["not_once"]:
+    ctx.coverage["invalid_member_probe"] = r.get("invalid_member")
+    for name, v in sorted((r.get("invalid_member") or {}).items() if "invalid" in parts else []):
+        if v.get("unwound_while_running") or not v.get("panicked"):
+            ctx.violation({"kind": "oracle", "oracle": "C02", "clauses": ["%s: the call %s while the dependency it named was still running"
+                           % (name, "unwound" if v.get("panicked") else "returned normally although one value is not a dependency")]}, case={"call": name})
+    ctx.coverage["name_prefix_probe"] = r.get("name_prefix")
+    if "names" in parts and r.get("name_prefix") and r["name_prefix"] != [1, 1, 1, 1, 0]:
+        ctx.violation({"kind": "oracle", "oracle": "C01", "clauses": ["functions whose names are prefixes of one another (NmBuild/NmBuildAll, NmF1/NmF10) ran %s times (last number: calls that returned before the dependency they name had run), each must run exactly once and before its caller goes on" % r["name_prefix"]]},
+                      case={"call": "mg.Deps(NmBuildAll, NmF10); mg.Deps(NmBuild, NmF1)"})
+    if "contend" in parts and r["not_once"]:
         ctx.violation({"kind": "oracle", "oracle": "C01", "clauses": ["under contention %d of %d fresh dependencies requested by %d goroutines at once did not run exactly once (executions per key: %s)"
                                                                        % (len(r["not_once"]), r["keys"], gor, dict(list(r["not_once"].items())[:5]))]}, case=spec)
